@@ -499,3 +499,20 @@ def seed_rotate(items: list, seed: int) -> list:
         return items
     k = seed % len(items)
     return items[k:] + items[:k]
+
+
+def _replay_call(arg):
+    import importlib
+
+    mod, rp = arg
+    return importlib.import_module(mod).replay(rp)[0]
+
+
+def confirm_replays(check_module: str, rps: list) -> list:
+    """Re-execute each replay description twice (fresh CLI processes) in parallel.
+    -> list of bool: True when the violation reproduced both times."""
+    if not rps:
+        return []
+    res = pmap("cmverif.drive:_replay_call", [(check_module, rp) for rp in rps] * 2)
+    n = len(rps)
+    return [(not res[i]) and (not res[i + n]) for i in range(n)]
